@@ -1289,6 +1289,24 @@ pub fn mutate(bytes: &[u8], rng: &mut Rng) -> Vec<u8> {
 fn shrink_candidates(v: &Val) -> Vec<Val> {
 	let mut c = vec![];
 	match v {
+		Val::Seq(xs) if xs.len() > 24 => {
+			// Large collections: drop halves / quarters only (element-wise
+			// candidates would be quadratic in memory).
+			let n = xs.len();
+			for (a, b) in [(0, n / 2), (n / 2, n), (0, n / 4), (n - n / 4, n), (0, 1), (n - 1, n)] {
+				let mut y = xs.clone();
+				y.drain(a..b);
+				c.push(Val::Seq(y));
+			}
+		}
+		Val::Map(m) if m.len() > 24 => {
+			let n = m.len();
+			for (a, b) in [(0, n / 2), (n / 2, n), (0, n / 4), (n - n / 4, n), (0, 1), (n - 1, n)] {
+				let mut y = m.clone();
+				y.drain(a..b);
+				c.push(Val::Map(y));
+			}
+		}
 		Val::Seq(xs) => {
 			for i in 0..xs.len() {
 				let mut y = xs.clone();
